@@ -110,6 +110,9 @@ def gen_history(r, n, clean=False):
         lo = r.randrange(16)
         mirror = r.choice((0, 0, 0x010, 0x0F0, 0x5A0, 0xFF0))
         addr = win | mirror | lo
+        if r.random() < 0.012:
+            ops.append(("reset", 0, 0))     # controller reset in the middle of a history: everything back to power-on
+            continue
         is_read = r.random() < 0.25
         if clean and not is_read and (lo & 1):
             # known finding c15-rs-write-ignores-rw-bit: keep most histories free of it so they run to the end
@@ -156,7 +159,12 @@ def run_histories(res: Result, histories, pixels=True):
             if kind == "w" and (lo & 1) and RefLcd.decode(addr) is not None:
                 bogus_write_seen = True
             tag = {"op": kind, "lo": lo, "prior_write_to_read_addr": bogus_write_seen}
-            if kind == "w":
+            if kind == "reset":
+                ref = RefLcd()
+                py.reset()
+                want_rd = got_py = None
+                res.monitor("mid_history_reset")
+            elif kind == "w":
                 before = py.get_display_buffer().copy() if pixels and (lo & 3) == 2 and RefLcd.decode(addr) else None
                 ref.write(addr, val)
                 py.write(addr, val)
